@@ -28,61 +28,61 @@ structure SearchContract (srch : Nat → Option Int → Cyc C) (lo hi : Nat) (μ
 /-- `cycle_min` is associative on weights, `none` is a two-sided identity, ties keep the left operand -/
 theorem c03_join_assoc (a b c : Cyc C) :
     wOf (cycleMin (cycleMin a b) c) = wOf (cycleMin a (cycleMin b c)) := by
-  sorry
+  exact cycleMin_assoc_w a b c
 
 theorem c03_join_ident (a : Cyc C) : cycleMin none a = a ∧ cycleMin a none = a := by
-  sorry
+  exact cycleMin_ident a
 
 theorem c03_join_prefers_left (a b : Int × C) (h : a.1 = b.1) : cycleMin (some a) (some b) = some a := by
-  sorry
+  exact cycleMin_prefers_left a b h
 
 /-- **schedule independence of the minimum search**: under every schedule that tiles `[lo,hi)`, the
 parallel reduction finds a cycle of weight exactly `μ` — the same weight as the sequential loop. -/
 theorem c03_reduce_min (srch : Nat → Option Int → Cyc C) (lo hi : Nat) (μ : Int)
     (hc : SearchContract srch lo hi μ) (s : Sched) (hs : s.Covers lo hi) :
     wOf (reduceMin srch s) = some μ := by
-  sorry
+  exact reduceMin_w hc.sound hc.complete hs
 
 theorem c03_seq_min (srch : Nat → Option Int → Cyc C) (lo hi : Nat) (μ : Int)
     (hc : SearchContract srch lo hi μ) : wOf (seqMin srch lo hi) = some μ := by
-  sorry
+  exact seqMin_w hc.sound hc.complete
 
 /-- when no index yields anything, every schedule reports not-found -/
 theorem c03_reduce_none (srch : Nat → Option Int → Cyc C) (lo hi : Nat)
     (hn : ∀ i L, lo ≤ i → i < hi → srch i L = none) (s : Sched) (hs : s.Covers lo hi) :
     reduceMin srch s = none := by
-  sorry
+  exact evalReduce_none hn hs (Nat.le_refl _) (Nat.le_refl _) none
 
 /-- the weight reduction of the approximate variants returns the sum under every schedule -/
 theorem c03_reduce_sum (ws : Nat → Int) (lo hi : Nat) (s : Sched) (hs : s.Covers lo hi) :
     reduceSum ws s = ((List.range' lo (hi - lo)).map ws).sum := by
-  sorry
+  exact (evalReduce_sum ws hs 0).trans (Int.zero_add _)
 
 /-- **support update**: for every tiling of `[k+1, N)` executed in any order the parallel update equals
 the sequential loop of Model/DePina.lean -/
 theorem c03_update_for (sup : List (List Nat)) (k : Nat) (cyc : List Nat) (fs : ForSched)
     (ht : fs.Tiles (k + 1) sup.length) :
     evalFor (updateRow k cyc) fs sup = updateSup sup k cyc := by
-  sorry
+  exact evalFor_updateRow sup k cyc fs ht
 
 /-- **support initialisation**: concurrent `push_back`s of the unit vectors in any interleaving give a
 permutation of the unit vectors -/
 theorem c03_init_perm (N : Nat) (fs : ForSched) (ht : fs.Tiles 0 N) :
     (evalFor (fun i (v : List (List Nat)) => v ++ [[i]]) fs []).Perm (unitSupports N) := by
-  sorry
+  exact evalFor_push_perm N fs ht
 
 /-- **no conflicting accesses**: two different tasks of the support-update region touch disjoint rows
 and only read row `k` and the cycle -/
 theorem c03_update_no_conflict (k lo₁ hi₁ lo₂ hi₂ : Nat) (h1 : k < lo₁) (h2 : k < lo₂)
     (hd : hi₁ ≤ lo₂ ∨ hi₂ ≤ lo₁) :
     conflict (updateFootprint k lo₁ hi₁) (updateFootprint k lo₂ hi₂) = false := by
-  sorry
+  exact updateFootprint_no_conflict k lo₁ hi₁ lo₂ hi₂ h1 h2 hd
 
 theorem c03_parity_no_conflict (lo₁ hi₁ lo₂ hi₂ : Nat) (hd : hi₁ ≤ lo₂ ∨ hi₂ ≤ lo₁) :
     conflict (parityFootprint lo₁ hi₁) (parityFootprint lo₂ hi₂) = false := by
-  sorry
+  exact parityFootprint_no_conflict lo₁ hi₁ lo₂ hi₂ hd
 
 theorem c03_search_no_conflict (n : Nat) : conflict (searchFootprint n) (searchFootprint n) = false := by
-  sorry
+  exact searchFootprint_no_conflict n
 
 end Parmcb.C03
